@@ -110,6 +110,10 @@ def gen(tier, seed):
     add("all_systems", "c06-all-systems", "all_systems(si_, ti, qi, di)", ["pre: 0 <= si_ <= 10 and 0 <= ti <= 9 and 0 <= qi <= 9 and 0 <= di <= 5"],
         "ALL 1100 unit systems x 6 dimension vectors, visited one after the other in one process: conversion to / from the default system equals the SI-table factor (no dependence on earlier conversions)",
         args="si_: int, ti: int, qi: int, di: int", viol="a conversion factor is wrong for some unit system, or depends on which conversions ran earlier in the process")
+    add("mutated_system", "c06-mutated-system", "mutated_system(ia, ib, fld, how, di)", ["pre: 0 <= ia <= 10 and 0 <= ib <= 10 and 0 <= fld <= 2 and 0 <= how <= 3 and 0 <= di <= 5"],
+        "a UnitsSystem object that was already used in conversions and is then modified (by attribute, by item, on a copy, through the Units that carries it) converts exactly like a freshly built system "
+        "with the same content: 11 x 11 catalogue systems x 3 fields x 4 ways x 6 dimension vectors", args="ia: int, ib: int, fld: int, how: int, di: int",
+        viol="a conversion depends on what the units-system object held when it was FIRST used (stale derived data): after an edit it still converts with the old unit")
     add("array_convert_3", "c06-array", "array_convert((x, y, z), 'B', 'D', (2, -1, 1))", ["pre: 1e-3 < x < 1e3 and 1e-3 < y < 1e3 and 1e-3 < z < 1e3"],
         "UnitArray.convert agrees element-wise with the scalar path (magnitudes realised at the numpy boundary)", args="x: float, y: float, z: float", timeout=20)
     return "\n".join(L), conds
